@@ -13,6 +13,7 @@ import CallbagModel.Closed.LinearInf
 import CallbagModel.Closed.LinearCost
 import CallbagModel.Closed.LinearInfCost
 import CallbagModel.Closed.Prog3Cost
+import CallbagModel.Closed.Prog3CostTake
 /-!
 # C06 — iterable programming: pull pipelines compute the corresponding list function
 
@@ -335,5 +336,15 @@ theorem C06_program_cost (p : Closed.Prog3) (hok : p.ok) (he : p.eager) :
       (Closed.thenM p.toM Closed.forEachM).nexts s.st ≤ (sem p.toPipe none).2 ∧
       (s.stack = [] → s.tr ≠ [] → (Closed.thenM p.toM Closed.forEachM).nexts s.st = (sem p.toPipe none).2) :=
   Closed.prog3_cost p hok he
+
+/-- … and with a `take` OVER a `concat!` whose members are take-free (they end only when pulled: `Prog3.lazy`, which contains
+`Prog3.eager`): e.g. `take 4 (concat!(src [1,2,3], filter even (src [4,5,6,7]), src [8,9]))` advances the iterators at most 5 times and
+never touches the third member (`Inv/JoinDemand.lean`: end-only-on-Pull, the demand invariant of the concat machine).  `flatRep` under a
+`take` is not covered (the comparison only). -/
+theorem C06_program_cost_take (p : Closed.Prog3) (hok : p.ok) (he : p.lazy) :
+    ∀ s, SReach (Closed.thenM p.toM Closed.forEachM).M s →
+      (Closed.thenM p.toM Closed.forEachM).nexts s.st ≤ (sem p.toPipe none).2 ∧
+      (s.stack = [] → s.tr ≠ [] → (Closed.thenM p.toM Closed.forEachM).nexts s.st = (sem p.toPipe none).2) :=
+  Closed.prog3_cost_take p hok he
 
 end Cb.Thm
